@@ -406,7 +406,41 @@ pub fn cmd_cache_history(args: &Args) -> J {
     let mut session = String::new();
     let mut session_of: Vec<(u64, usize, Vec<String>)> = Vec::new();
     let mut model_ops = 0usize;
+    // replay every account's operations through the Lean account-status machine (both sides);
+    // in batches, so that a thorough-size run does not build one multi-gigabyte session
+    let mut model_ok = 0usize;
+    let mut n_sessions = 0usize;
+    let mut flush = |session: &mut String, session_of: &mut Vec<(u64, usize, Vec<String>)>, divergences: &mut Vec<J>| {
+        if session_of.is_empty() {
+            return;
+        }
+        n_sessions += session_of.len();
+        match crate::lean::run_gmodel(&gmodel, session) {
+            Ok(lines) => {
+                if lines.len() != session_of.len() {
+                    divergences.push(J::obj(vec![("kind", J::s("correspondence")), ("detail", J::s(format!("acct sessions: {} answers for {} sessions", lines.len(), session_of.len())))]));
+                }
+                for (line, (case, a, ops)) in lines.iter().zip(session_of.iter()) {
+                    if line.starts_with("ok ") {
+                        model_ok += 1;
+                    } else if divergences.len() < 8 {
+                        divergences.push(J::obj(vec![
+                            ("kind", J::s("correspondence")),
+                            ("detail", J::s(format!("cache history case {case} account {a}: Lean account-status machine (Model/AcctState): {line}"))),
+                            ("history", J::Arr(ops.iter().map(|l| J::s(l.clone())).collect())),
+                        ]));
+                    }
+                }
+            }
+            Err(e) => divergences.push(J::obj(vec![("kind", J::s("correspondence")), ("detail", J::s(format!("gmodel: {e}")))])),
+        }
+        session.clear();
+        session_of.clear();
+    };
     for case in 0..cases {
+        if case % 2000 == 0 {
+            flush(&mut session, &mut session_of, &mut divergences);
+        }
         let mut mlog: Vec<Vec<String>> = Vec::new();
         let (log, verdict) = history_case(&mut rng, &mut hist, &mut mlog);
         for (a, lines) in mlog.into_iter().enumerate() {
@@ -432,30 +466,11 @@ pub fn cmd_cache_history(args: &Args) -> J {
             }
         }
     }
-    // replay every account's operations through the Lean account-status machine (both sides)
-    let mut model_ok = 0usize;
-    match crate::lean::run_gmodel(&gmodel, &session) {
-        Ok(lines) => {
-            if lines.len() != session_of.len() {
-                divergences.push(J::obj(vec![("kind", J::s("correspondence")), ("detail", J::s(format!("acct sessions: {} answers for {} sessions", lines.len(), session_of.len())))]));
-            }
-            for (line, (case, a, ops)) in lines.iter().zip(session_of.iter()) {
-                if line.starts_with("ok ") {
-                    model_ok += 1;
-                } else if divergences.len() < 8 {
-                    divergences.push(J::obj(vec![
-                        ("kind", J::s("correspondence")),
-                        ("detail", J::s(format!("cache history case {case} account {a}: Lean account-status machine (Model/AcctState): {line}"))),
-                        ("history", J::Arr(ops.iter().map(|l| J::s(l.clone())).collect())),
-                    ]));
-                }
-            }
-        }
-        Err(e) => divergences.push(J::obj(vec![("kind", J::s("correspondence")), ("detail", J::s(format!("gmodel: {e}")))])),
-    }
+    flush(&mut session, &mut session_of, &mut divergences);
+    drop(flush);
     J::obj(vec![
         ("check", J::s("cache-history (ParallelState vs revm State: transitions, reads, bundles, reverts; every account's operations replayed through the Lean account-status machine G.step / S.step)")),
-        ("acct_sessions", J::n(session_of.len())),
+        ("acct_sessions", J::n(n_sessions)),
         ("acct_sessions_conforming", J::n(model_ok)),
         ("acct_model_operations", J::n(model_ops)),
         ("seed", J::n(seed as usize)),
